@@ -12,6 +12,15 @@ theorem pres_selA {s s' : St} {a : Act} (hI : Inv s) (h : step .repaired s a = s
   | fire t0 =>
     simp only [step] at h
     (repeat' (split at h)) <;> (try cases h) <;> (simp only [St.setPc, St.setObj]; first | (have i_selA := hI.selA; have i_refs := hI.refs; grind [cleanerOf, PC.ref, Obj.fresh]) | (have i_selA := hI.selA; have i_clA := hI.clA; have i_refs := hI.refs; grind (instances := 4000) [cleanerOf, PC.ref, Obj.fresh]))
+  | corrupt d =>
+    simp only [step] at h
+    (repeat' (split at h)) <;> (try cases h) <;> (simp only []; first | (have i_selA := hI.selA; have i_refs := hI.refs; grind [cleanerOf, PC.ref, Obj.fresh]) | (have i_selA := hI.selA; have i_clA := hI.clA; have i_refs := hI.refs; grind (instances := 4000) [cleanerOf, PC.ref, Obj.fresh]))
+  | block d =>
+    simp only [step] at h
+    (repeat' (split at h)) <;> (try cases h) <;> (simp only []; first | (have i_selA := hI.selA; have i_refs := hI.refs; grind [cleanerOf, PC.ref, Obj.fresh]) | (have i_selA := hI.selA; have i_clA := hI.clA; have i_refs := hI.refs; grind (instances := 4000) [cleanerOf, PC.ref, Obj.fresh]))
+  | repair d =>
+    simp only [step] at h
+    (repeat' (split at h)) <;> (try cases h) <;> (simp only []; first | (have i_selA := hI.selA; have i_refs := hI.refs; grind [cleanerOf, PC.ref, Obj.fresh]) | (have i_selA := hI.selA; have i_clA := hI.clA; have i_refs := hI.refs; grind (instances := 4000) [cleanerOf, PC.ref, Obj.fresh]))
   | run t0 =>
     simp only [step] at h
     split at h
